@@ -326,6 +326,13 @@ let eval_line (fields : string list) : (string * string) list =
         if calls <> "-" && calls <> "0" then fail "oracle.C16" "items were decoded although the limit was exceeded"
       | _ -> ());
      if res = "panic" then fail "oracle.C16" "list decoding panicked instead of returning an error";
+     (* C09 for lists, judged by the native tiling reference: with a collection that takes
+        everything and no limit in the way, acceptance = tiling and the items are the slices *)
+     (match c, mx with
+      | M.CVec, None when ts = "(list (uint 2))" && res <> "panic" ->
+        let e = Tiling.expected_u16_lists bs in
+        if e <> res then fail "oracle.C09" ("list tiling reference says: " ^ (if String.length e > 200 then String.sub e 0 200 else e))
+      | _ -> ());
      (match c with
       | M.CRefusing -> if res <> "err" then
           fail "oracle.C16" "a collection that refuses must yield an error (never a value, never a panic)"
